@@ -13,6 +13,7 @@
 #include "drv.h"
 #include <errno.h>
 #include <fcntl.h>
+#include <pthread.h>
 #include <signal.h>
 #include <sys/resource.h>
 #include <dirent.h>
@@ -263,6 +264,16 @@ static String tok_string()
 }
 static void j_strbytes(const char* k, const String& s) { j_bytes(k, (const unsigned char*)(const char*)s, (long)s.length()); }
 
+struct RaceJob { const String* path; int ok; };
+static pthread_barrier_t g_raceBar;
+static void* race_thread(void* arg)
+{
+  RaceJob* j = (RaceJob*)arg;
+  String mine(*j->path);               // (an own copy: the threads share nothing but the file system)
+  pthread_barrier_wait(&g_raceBar);
+  j->ok = Directory::create(mine) ? 1 : 0;
+  return 0;
+}
 void drv_apply(const char* op)
 {
   if(!strcmp(op, "path"))
@@ -305,7 +316,7 @@ void drv_apply(const char* op)
   {
     strncpy(p, tok_next(), 63);
     if(!strcmp(op, "copy") || !strcmp(op, "copylim") || !strcmp(op, "rename")) strncpy(q, tok_next(), 63);
-    if(strcmp(op, "get") && strcmp(op, "unlink") && strcmp(op, "dcreate") && strcmp(op, "fexists") && strcmp(op, "dexists")) k = tok_int();
+    if(strcmp(op, "get") && strcmp(op, "unlink") && strcmp(op, "dcreate") && strcmp(op, "dcreaterace") && strcmp(op, "fexists") && strcmp(op, "dexists")) k = tok_int();
     if(!strcmp(op, "put")) d = tok_bytes(&dn, 0);
   }
   // safety guards: the same exclusions as FsModel!Enabled that could act outside the scratch tree or on descriptor 0
@@ -358,6 +369,14 @@ void drv_apply(const char* op)
   else if(!strcmp(op, "rename")) r = File::rename(sp, sq, k == 1) ? 1 : 0;
   else if(!strcmp(op, "unlink")) r = File::unlink(sp) ? 1 : 0;
   else if(!strcmp(op, "dcreate")) r = Directory::create(sp) ? 1 : 0;
+  else if(!strcmp(op, "dcreaterace"))
+  {
+    RaceJob jobs[3]; pthread_t th[3];
+    pthread_barrier_init(&g_raceBar, 0, 3);
+    for(int t = 0; t < 3; ++t) { jobs[t].path = &sp; jobs[t].ok = 0; pthread_create(&th[t], 0, race_thread, &jobs[t]); }
+    for(int t = 0; t < 3; ++t) { pthread_join(th[t], 0); r += jobs[t].ok; }
+    pthread_barrier_destroy(&g_raceBar);
+  }
   else if(!strcmp(op, "dcreateroot")) r = Directory::create(k == 0 ? String("/") : String("/tmp")) ? 1 : 0;     // exist already: must report success
   else if(!strcmp(op, "dcreated")) { String dp(sp); dp.append(k == 1 ? String("/..") : String("/.")); r = Directory::create(dp) ? 1 : 0; }
   else if(!strcmp(op, "dunlink")) r = Directory::unlink(sp, k == 1) ? 1 : 0;
